@@ -186,7 +186,8 @@ def gen_cases(ctx):
     if len(cases) < 500:
         raise Infra("case generation produced only %d cases" % len(cases))
     # named library types as top-level values (CreateKey / FullTypePath need a named top-level type)
-    for top in ("S", "T1", "T2", "U", "V", "W", "Tagged", "Unexp", "Emb", "EmbPtr", "Simp", "PSimp", "Gen", "JM", "PJM", "TM"):
+    for top in ("S", "T1", "T2", "U", "V", "W", "Tagged", "Unexp", "Emb", "EmbPtr", "Simp", "PSimp", "Gen", "JM", "PJM", "TM",
+                "[]anyF", "[]anyP", "L1", "Str1", "Str2", "Col1", "Col2", "Col3", "[]float32", "map[string]float32", "float32"):
         for v in ("z", "n", "e"):
             cases.append({"f": [], "top": top, "v": v})
     p = os.path.join(ctx.scratch, "enc_gen_cases.ndjson")
